@@ -1022,11 +1022,39 @@ fn gen_case(rt: &Runtime<NoCtx>, drv: &mut Driver, seed: u64, index: u64, rep: &
     } else {
         (what, src, pairs)
     };
+    // … and the never type `!`: "an uninhabited type, meaning that it cannot
+    // be constructed" — no value fits where `!` is expected (a diverging
+    // expression does)
+    let (what, src, pairs) = if p.chance(1, 6) {
+        let ret = t1;
+        let (rv, _) = value(&mut p, ret, true);
+        match p.below(7) {
+            0 => ("never-let-value", format!("fn main() {{ let x: ! = {v1}; }}\n"), "never".to_string()),
+            1 => ("never-returned-value", format!("fn f() -> ! {{ {v1} }}\n"), "never".to_string()),
+            2 => ("never-argument-value", format!("fn g(x: !) {{ }}\nfn main() {{ g({v1}); }}\n"), "never".to_string()),
+            3 => ("never-option-some", format!("fn main() {{ let x: Option[!] = Option.Some({v1}); }}\n"), "never".to_string()),
+            4 => ("never-falls-off-the-end", "fn f() -> ! { }\n".to_string(), "never".to_string()),
+            5 => ("never-let-diverging", format!("fn main() -> {ret} {{ let x: ! = return {rv}; }}\n"), "bool:bool".to_string()),
+            _ => ("never-option-none", "fn main() { let x: Option[!] = Option.None; }\n".to_string(), "bool:bool".to_string()),
+        }
+    } else {
+        (what, src, pairs)
+    };
     let request = format!("c07 compat {pairs}");
     let answer = drv.ask(&request);
-    let real = compile(rt, &src, false);
+    // the whole pipeline for the never forms: what the type checker lets through here panics later
+    let real = compile(rt, &src, what.starts_with("never-"));
     rep.evaluations += 1;
-    let input = json!({"seed": seed, "index": index, "src": src, "rec": request, "model": answer});
+    let input = json!({"seed": seed, "index": index, "src": src, "rec": request, "model": answer, "full": what.starts_with("never-")});
+    if let (Outcome::Panic(msg), "untypable") = (&real, answer.as_str()) {
+        rep.violation(
+            &format!("an ill-typed script made the compiler panic instead of reporting a type error: {msg}"),
+            &format!("panic:generic-instantiation:{what}"),
+            input,
+        );
+        rep.hist("generic-instantiation", format!("{what}:panic"));
+        return;
+    }
     match (&real, answer.as_str()) {
         (Outcome::Ok, "typable") | (Outcome::TypeError(_), "untypable") => {}
         (Outcome::Ok, "untypable") => rep.violation(
@@ -1428,8 +1456,10 @@ fn replay_one(input: &Value, rep: &mut Report) {
             let a = drv.ask(req);
             println!("declarative judge: {a}");
             rep.evaluations += 1;
-            if a == "untypable" && compile(&rt, src, false) == Outcome::Ok {
-                rep.violation("a record literal that does not fit the expected record type compiled", "accepted:record-literal:replay", input.clone());
+            let full = input["full"].as_bool().unwrap_or(false);
+            let out = compile(&rt, src, full);
+            if a == "untypable" && (out == Outcome::Ok || matches!(out, Outcome::Panic(_))) {
+                rep.violation("a script the declarative judge calls untypable compiled (or panicked the compiler)", "accepted:declarative-family:replay", input.clone());
             }
             return;
         }
